@@ -189,8 +189,10 @@ type procResult struct {
 
 const stepTimeout = 30 * time.Second
 
-func waitFile(p string) bool {
-	dl := time.Now().Add(stepTimeout)
+func waitFile(p string) bool { return waitFileFor(p, stepTimeout) }
+
+func waitFileFor(p string, d time.Duration) bool {
+	dl := time.Now().Add(d)
 	for time.Now().Before(dl) {
 		if _, err := os.Stat(p); err == nil {
 			return true
@@ -309,9 +311,16 @@ func replay(work string, idx int, pl launchPlan, predicted map[bool]bool) (viol 
 	}
 	if pl.doneAtPause2 {
 		// the launcher is held right before its wait; only then may the daemon call Done()
-		if !waitFile(filepath.Join(dir, "launch-before-wait.reached")) {
-			return "", "the launcher did not reach the second pause point", obs
+		if !waitFileFor(filepath.Join(dir, "launch-before-wait.reached"), 5*time.Second) {
+			// this launcher has no such pause point (any more): the class cannot be forced; the
+			// launch goes on as a free race and is judged by the same clauses
+			obs["class_not_forced"] = "the launcher did not stop at launch-before-wait"
+			os.WriteFile(filepath.Join(dir, "daemon.release"), nil, 0o644)
+			os.WriteFile(filepath.Join(dir, "launch-before-wait.release"), nil, 0o644)
+			pl.doneAtPause2 = false
 		}
+	}
+	if pl.doneAtPause2 {
 		if _, err := os.Stat(result); err == nil {
 			return "Launch returned although the daemon has not called Done() yet (it is being held before Done())", "", obs
 		}
@@ -678,6 +687,9 @@ func main() {
 					}
 					if mm, ok := obs["model_mismatch"].(string); ok {
 						warnings = append(warnings, j.name+": "+mm)
+					}
+					if nf, ok := obs["class_not_forced"].(string); ok {
+						warnings = append(warnings, j.name+": "+nf+" (replayed as a free race)")
 					}
 					if v != "" {
 						viols = append(viols, vcommon.Violation{Scenario: j.name, Fingerprint: j.name + "|" + firstWords(v, 6),
